@@ -116,7 +116,22 @@ class LowerMatch(ast.NodeTransformer):
         self.generic_visit(node)
         pre: List[ast.stmt] = []
         subj = node.subject
-        if not _pure(subj) and not (isinstance(subj, ast.Tuple) and all(_pure(x) for x in subj.elts)):
+        if isinstance(subj, ast.Tuple) and not any(isinstance(x, ast.Starred) for x in subj.elts) and not _pure(subj):
+            # a tuple display is matched element by element: each element that is more than a plain read is evaluated
+            # once, in order, into a temporary of its own
+            elts = []
+            seen_impure = False
+            for x in subj.elts:
+                if _pure(x) and not seen_impure:
+                    elts.append(x)
+                    continue
+                seen_impure = True
+                self.n += 1
+                tmp = f"_match_subject_{self.n}"
+                pre.append(ast.Assign(targets=[ast.Name(id=tmp, ctx=ast.Store())], value=x))
+                elts.append(ast.Name(id=tmp, ctx=ast.Load()))
+            subj = ast.Tuple(elts=elts, ctx=ast.Load())
+        elif not _pure(subj):
             self.n += 1
             tmp = f"_match_subject_{self.n}"
             pre.append(ast.Assign(targets=[ast.Name(id=tmp, ctx=ast.Store())], value=subj))
